@@ -44,6 +44,14 @@ def check(ctx: Ctx) -> None:
     # the collector's handling of markers it cannot list / stat / read keeps protection in force (fail closed)
     from .c07 import r1 as c07_r1
     c07_r1(ctx, "C05.R11")
+    # the guarantee is about the files, whoever deletes them: a deleter outside the collector (eager clean-up in a snapshot
+    # deletion / expiry API) does not consult all retained snapshots, and every later collection then aborts on the hole
+    from .c09 import r3 as c09_r3
+    ctx.shared(c09_r3, "C09.R3", "C05.R12", "only the collector (and the rollback of never-committed files) deletes")
+    # "no file registered by a live transaction": every data file a transaction writes is registered the one way the collector
+    # understands (a per-file marker written by _register_inflight)
+    from .c06 import data_writes_protected
+    data_writes_protected(ctx, "C05.R13")
 
 
 class Contrib:
